@@ -553,7 +553,9 @@ func symConv(dst, src types.Type, x sym) value {
 			if x.t.Op == "app" && x.t.Name == "f32" {
 				return sym{x.t, dk}
 			}
-			return sym{c.App("f32", smt.Real, x.t), dk}
+			r := c.App("f32", smt.Real, x.t)
+			c.AddPrefer(c.Eq(r, x.t)) // counterexamples with float32-representable inputs replay exactly
+			return sym{r, dk}
 		}
 		return sym{x.t, dk}
 	case isIntKind(sk) && isFloatKind(dk):
